@@ -69,6 +69,20 @@ Theorem C16_text_roundtrip : forall C, cc_ok C -> forall T,
 Proof. exact text_roundtrip. Qed.
 Print Assumptions C16_text_roundtrip.
 
+(* the same on the text exactly as Python >= 3.11 prints it -- folded entries AND a position-marker
+   line under the source line of any entry that is shown *)
+Theorem C16_parse_real : forall C, cc_ok C -> forall T ms,
+  wf C T = true -> markers_ok ms = true -> length ms = length (t_frames T) ->
+  src_consistent (t_frames T) = true -> from_string C (real_text T ms) = Ok T.
+Proof. exact parse_real_text. Qed.
+Print Assumptions C16_parse_real.
+
+Theorem C16_real_roundtrip : forall C, cc_ok C -> forall T ms,
+  wf C T = true -> markers_ok ms = true -> length ms = length (t_frames T) ->
+  src_consistent (t_frames T) = true -> parse_print C (real_text T ms) = Ok (std_text T).
+Proof. exact real_roundtrip. Qed.
+Print Assumptions C16_real_roundtrip.
+
 (* with position-marker lines in the text: they are dropped, nothing else changes *)
 Theorem C16_marked_roundtrip : forall C, cc_ok C -> forall T ms,
   wf C T = true -> markers_ok ms = true -> length ms = length (t_frames T) ->
@@ -138,19 +152,12 @@ Print Assumptions C16_lineno_always_ok.
    function the correspondence run evaluates on the implementation's observation; hence
    [agree] on a case transfers [holds] from the model to the code on that case ------------------------ *)
 Theorem C16_check_sound_roundtrip : forall T ms,
-  long_repeat (t_frames T) = false -> length ms = length (t_frames T) ->
-  rt_verdict T ms (marked_text T ms)
-             (fst (model_parse_print (marked_text T ms))) (snd (model_parse_print (marked_text T ms)))
+  length ms = length (t_frames T) ->
+  rt_verdict T ms (real_text T ms)
+             (fst (model_parse_print (real_text T ms))) (snd (model_parse_print (real_text T ms)))
   = (true, true, false).
 Proof. exact rt_sound. Qed.
 Print Assumptions C16_check_sound_roundtrip.
-
-Theorem C16_check_sound_folded : forall T ms,
-  long_repeat (t_frames T) = true ->
-  rt_verdict T ms (std_text T) (fst (model_parse_print (std_text T))) (snd (model_parse_print (std_text T)))
-  = (true, true, false).
-Proof. exact rt_sound_folded. Qed.
-Print Assumptions C16_check_sound_folded.
 
 Theorem C16_check_sound_live : forall fs e,
   plain_exc e = true ->
